@@ -293,12 +293,12 @@ theorem verify_tr_script_of (env : VerifyEnv) (q script control : Bytes) (stackW
   unfold verifyScript
   rw [hrev]
   cases hT : has env.flags FLAG_TAPROOT
-  · simp [e0, e1, hwp, hsh, hpo, hW, hT, requireTrueTop, hnz, verifyWitnessProgram, hq,
+  · simp [e0, e1, hwp, hsh, hpo, hW, hT, requireTrueTop, hnz, verifyWitnessProgram, stripAnnex, hq,
       Except.bind, bind, pure, Except.pure]
   · have hcom' : env.commitment control q (env.taggedHash "TapLeaf".toByteArray.toList
         (192 :: (compactSize script.length ++ script))) = .ok true := hcom
     push_cast at hex
-    simp [hcom', e0, e1, hwp, hsh, hpo, hW, hT, requireTrueTop, hnz, verifyWitnessProgram, hq, h50, hc1, hc2, hc3, hv,
+    simp [hcom', e0, e1, hwp, hsh, hpo, hW, hT, requireTrueTop, hnz, verifyWitnessProgram, stripAnnex, hq, h50, hc1, hc2, hc3, hv,
       hex, Except.bind, bind, pure, Except.pure]
 
 open Btc.Spend in
